@@ -83,9 +83,13 @@ def cmd_run(args):
         sys.exit(1)
 
     # Load supplemental data sources for cross-source queries
-    supplemental_data = load_supplemental_sources(config, config_dir)
+    supplemental_problems = []
+    supplemental_data = load_supplemental_sources(config, config_dir, problems=supplemental_problems)
     if not args.quiet and supplemental_data:
         print(f"  Supplemental sources: {', '.join(supplemental_data.keys())}")
+    if not args.quiet:
+        for name, message in supplemental_problems:
+            print(f"  {name}: {message}")
 
     # Parse transactions from configured data sources (skip supplemental)
     all_txns = []
